@@ -25,7 +25,7 @@ CHUNK = 200
 CORRESPONDENCE = ("Model.Proxy.{replace_node,replace_node_multi,relabel_graph,relabel_graph_multi} ~ "
                   "fgutils.proxy.{replace_node,relabel_graph} on networkx.Graph / networkx.MultiGraph "
                   "(Base.NX / Base.NXMulti), exact equality incl. dict orders and edge keys")
-RULE = ("parent graphs = random SMILES-like pattern strings (450 quick / 10000 thorough single calls; 30% 'stars': a labelled centre with 0-5 bonds, some doubled "
+RULE = ("parent graphs = random SMILES-like pattern strings (440 quick / 10000 thorough single calls; 30% 'stars': a labelled centre with 0-5 bonds, some doubled "
         "through ring closures; else 1-10 atoms, branches, one ring token per atom incl. "
         "rings closed on the neighbouring atom = parallel bonds in a multigraph, explicit/ITS <g,h> bonds, '.' "
         "non-bonds, node labels) parsed by the real Parser(use_multigraph=False|True); 35% of the parents are "
@@ -36,9 +36,12 @@ RULE = ("parent graphs = random SMILES-like pattern strings (450 quick / 10000 t
         "values inside the sub-pattern (repeats allowed), 6% out of range/negative/empty, 2% node not in the graph; "
         "corpus = D21 witness, a hand-built parent with adjacency out of node order, the substitutions of "
         "test/test_proxy.py, anchor overflow and double attachment, each for both graph classes; history cases "
-        "(45 quick / 1000 thorough + 8 corpus): ONE ProxyGraph object and ONE Parser object used for 2-3 consecutive "
+        "(55 quick / 1200 thorough + 16 corpus): ONE ProxyGraph object and ONE Parser object used for 2-3 consecutive "
         "calls on different parents/nodes, 40% of the later calls on the previous call's result (as build_graphs "
-        "does), every call compared with the model on its own inputs and the original anchors; after every call "
+        "does), every call compared with the model on its own inputs and the original anchors; 45% of the histories "
+        "contain 1-2 calls whose sub-pattern the parser rejects (random valid prefix + offending token: SyntaxError, "
+        "IndexError 'pop from empty list', KeyError on '/' '\\'; must raise what a fresh parser raises, parent "
+        "untouched) before valid calls with the SAME Parser object; after every call "
         "runtime invariants: graph argument, ProxyGraph.pattern/anchor (object and contents), caller's anchor list, "
         "ProxyGraph's default anchor list unchanged, parser still parses, earlier results not modified later; plus random "
         "operation sequences validating the MultiGraph model itself (kind=mtie: 130 quick / 2000 thorough). "
@@ -233,6 +236,37 @@ def gen_replace_case(rng):
             "order": order, "src": pat, "default_anchor": anchors == [0] and rng.random() < 0.5}
 
 
+BAD_TOKENS = ["%", "~", "*", "[C]", "@", "+", " ", "x", "<1>", "<1,2,3>", "<a,b>", "{}", "{a b}", "}", ">",   # SyntaxError
+              ")", "))", "C)",                                                                            # IndexError (pop from empty list)
+              "/", "\\", "/C", "\\C"]                                                                       # KeyError (bond map)
+BAD_WHOLE = ["1C", "=1", "2CC2", ")", "C)", "C/C", "C%", "C(C))C", "C\\C", "<1,2>1C"]
+
+
+def parser_rejects(mg, pattern, off):
+    """Exception class name a FRESH parser raises on the pattern, None when it parses."""
+    try:
+        Parser(use_multigraph=mg).parse(pattern, idx_offset=off)
+    except Exception as e:
+        return type(e).__name__
+    return None
+
+
+def rand_bad_pattern(rng, mg):
+    """A sub-pattern the parser rejects, mostly AFTER it has already built something (nodes, an anchor, an open
+    branch or ring, a pending bond order, the ITS flag), so that a parser which does not reset itself before the
+    next parse carries visible leftovers."""
+    for _ in range(200):
+        if rng.random() < 0.25:
+            pat = rng.choice(BAD_WHOLE)
+        else:
+            pre = rand_pattern(rng, rng.randint(1, 4), its_p=0.3, label_p=0.2, ring_p=0.4, dot_p=0.0)
+            pre += rng.choice(["", "", "(", "(=", "=", "<2,1>", "3"])
+            pat = pre + rng.choice(BAD_TOKENS) + rng.choice(["", "", "C", "O1"])
+        if parser_rejects(mg, pat, 0) is not None and parser_rejects(mg, pat, 7) is not None:
+            return pat
+    return "C%"
+
+
 def gen_history_case(rng):
     """The SAME ProxyGraph object and the SAME Parser object used for 2-3 consecutive replace_node calls
     (what build_graphs does with a group's ProxyGraph). A step marked chain=True takes the previous step's
@@ -254,14 +288,24 @@ def gen_history_case(rng):
     anchors = rand_anchors(rng, deg, k)
     if k >= 2 and len(anchors) < 2 and rng.random() < 0.7:
         anchors = [rng.randrange(0, k) for _ in range(rng.randint(2, 3))]   # several anchors: order matters
+    # 45%: 1-2 calls (same Parser object) whose sub-pattern the parser rejects, before valid calls
+    if rng.random() < 0.45:
+        nbad = rng.choice([1, 1, 2])
+        pos = 0 if rng.random() < 0.7 else 1          # sometimes a valid call comes first
+        for j in range(nbad):
+            g, node, order, pat = gen_parent(rng, mg)
+            steps.insert(pos, {"graph": g, "node": node, "order": order, "src": pat, "chain": False,
+                               "pick": 0, "bad": rand_bad_pattern(rng, mg)})
+        if pos < len(steps) - nbad:
+            steps[pos + nbad]["chain"] = False        # no previous result to chain on
     return {"kind": "history", "mg": mg, "steps": steps, "pattern": sub, "anchors": anchors,
             "default_anchor": anchors == [0] and rng.random() < 0.5}
 
 
 def generate(seed, tier, ncases=None):
-    n = ncases or (450 if tier == "quick" else 10000)
+    n = ncases or (440 if tier == "quick" else 10000)
     n_tie = max(1, n // 4) if ncases else (130 if tier == "quick" else 2000)
-    n_hist = max(1, n // 10) if ncases else (45 if tier == "quick" else 1000)
+    n_hist = max(1, n // 10) if ncases else (55 if tier == "quick" else 1200)
     for i in range(n):
         rng = lib.rng_for(seed, ID, i)
         yield gen_replace_case(rng)
@@ -281,11 +325,13 @@ def _corpus_case(mg, core, node, pattern, anchors, shuffle=None):
 
 
 def _corpus_history(mg, pattern, anchors, calls, default_anchor=False):
-    """calls: list of (core pattern | None = previous result, node)."""
+    """calls: list of (core pattern | None = previous result, node[, sub-pattern the parser rejects])."""
     steps = []
-    for core, node in calls:
+    for call in calls:
+        core, node = call[0], call[1]
         g = Parser(use_multigraph=mg).parse(core if core is not None else "C")
-        steps.append({"graph": g, "node": node, "order": "parsed", "src": core, "chain": core is None, "pick": 0})
+        steps.append({"graph": g, "node": node, "order": "parsed", "src": core, "chain": core is None, "pick": 0,
+                      "bad": call[2] if len(call) > 2 else None})
     return {"kind": "history", "mg": mg, "steps": steps, "pattern": pattern, "anchors": list(anchors),
             "default_anchor": default_anchor}
 
@@ -327,6 +373,12 @@ def corpus():
         yield _corpus_history(mg, "NO", [1, 0], [("C{g}(=O){g}(Cl)S", 1), (None, 0)])
         yield _corpus_history(mg, "C<2,1>C", [0, 1], [("{g}1<0,1>{g}<0,1>1", 0), (None, 0)])
         yield _corpus_history(mg, "CC", [0], [("C{g}C", 1), ("N{g}O", 1)], default_anchor=True)
+        # a call whose sub-pattern the parser rejects (SyntaxError / IndexError / KeyError), then valid calls with
+        # the SAME Parser object: nothing of the rejected pattern may survive in the parser
+        yield _corpus_history(mg, "NO", [0, 1], [("C{g}C", 1, "CC(=O%"), ("C1C={g}#1", 2)])
+        yield _corpus_history(mg, "CCC", [0, 2], [("C{g}C", 1, "1C"), ("C{g}C", 1, "C<2,1>C(C))"), ("C1{g}C1", 1)])
+        yield _corpus_history(mg, "C=O", [0], [("N{g}O", 1), ("C{g}C", 1, "CC1/C"), ("N{g}(O)S", 1), (None, 0)])
+        yield _corpus_history(mg, "C", [0], [("{g}C", 7, "C)"), ("C{g}", 1)])      # node missing AND pattern rejected
 
 
 PROBE = "C1(=O)c{q}1"      # parsed after every call to see that the Parser object is still usable
@@ -344,14 +396,12 @@ def _call(graph, node, pg, parser):
     g = cm.copy_exact(graph)
     try:
         out = ("ok", replace_node(g, node, pg, parser))
-    except nx.NetworkXError as e:
-        out = ("NetworkXError", str(e))
-    except IndexError as e:
-        out = ("IndexError", str(e))
+    except Exception as e:   # NetworkXError / IndexError from replace_node itself; SyntaxError / IndexError /
+        out = (type(e).__name__, str(e))   # KeyError from the parser on a rejected sub-pattern; anything else
     return out + (cm.identical(g, graph),)
 
 
-def _object_invariants(c, pg, anchors_arg, anchor_obj, parser, where):
+def _object_invariants(c, pg, anchors_arg, anchor_obj, parser, where, probe=True):
     """What replace_node may NOT touch: the ProxyGraph (pattern, anchor list object and contents, name,
     properties), the caller's anchor list, the mutable default of ProxyGraph.__init__, and the parser's
     configuration; the parser must still parse. (It MAY reset the parser's working state: parse() does.)"""
@@ -371,6 +421,10 @@ def _object_invariants(c, pg, anchors_arg, anchor_obj, parser, where):
         ProxyGraph.__init__.__defaults__[0][:] = [0]      # do not poison the following cases
     if parser.use_multigraph != c["mg"]:
         msgs.append("%s: parser.use_multigraph changed" % where)
+    if not probe:
+        # inside a history the parser is NOT probed between the calls: a successful parse would repair a parser
+        # that carries leftovers of a rejected pattern, and hide them from the next replace_node call
+        return msgs
     try:
         probe = parser.parse(PROBE, idx_offset=2)
         if not cm.identical(probe, Parser(use_multigraph=c["mg"]).parse(PROBE, idx_offset=2)):
@@ -401,6 +455,7 @@ def run_impl(c):
         return (st, res, msgs)
     outs, snaps, msgs = [], [], []
     prev = None
+    last = len(c["steps"]) - 1
     for j, step in enumerate(c["steps"]):
         if step.get("chain"):
             # the parent of this step is the previous actual result (as in build_graphs); from now on a fixed input
@@ -409,10 +464,25 @@ def run_impl(c):
                 step["node"] = _pick_node(prev, step["pick"])
                 step["order"] = "chained"
             step["chain"] = False
-        st, res, same = _call(step["graph"], step["node"], pg, parser)
+        if step.get("bad") is not None:
+            # same Parser object, a ProxyGraph of its own whose pattern the parser rejects: the call must raise what
+            # a FRESH parser raises on that pattern (parse() comes first in replace_node: before the node lookup and
+            # before the anchors are read), and must leave the parent and the ProxyGraph alone
+            bad_anchors = list(c["anchors"])
+            bad_pg = ProxyGraph(step["bad"], anchor=bad_anchors)
+            expect = parser_rejects(c["mg"], step["bad"], len(step["graph"].nodes))
+            st, res, same = _call(step["graph"], step["node"], bad_pg, parser)
+            if st != expect:
+                msgs.append("step %d: sub-pattern %r: a fresh parser raises %s, the call with the shared parser gave %s"
+                            % (j, step["bad"], expect, st))
+            if bad_pg.pattern != step["bad"] or bad_pg.anchor is not bad_anchors or bad_anchors != list(c["anchors"]):
+                msgs.append("step %d: the ProxyGraph of the rejected call was modified" % j)
+            res = (expect, res)        # what the model side says, and the message
+        else:
+            st, res, same = _call(step["graph"], step["node"], pg, parser)
         if not same:
             msgs.append("step %d: replace_node mutated its graph argument" % j)
-        msgs += _object_invariants(c, pg, anchors_arg, anchor_obj, parser, "after step %d" % j)
+        msgs += _object_invariants(c, pg, anchors_arg, anchor_obj, parser, "after step %d" % j, probe=(j == last))
         outs.append((st, res))
         snaps.append(cm.copy_exact(res) if st == "ok" else None)
         prev = res if st == "ok" else None
@@ -439,8 +509,10 @@ def _step_terms(c, graph, node, out, sfx):
         defs["out" + sfx] = "(POk %s)" % cm.any_graph(out[1])
     elif out[0] == "NetworkXError":
         defs["out" + sfx] = "(@PErr %s ENoNode)" % ty
-    else:
+    elif out[0] == "IndexError":
         defs["out" + sfx] = "(@PErr %s EIndex)" % ty
+    else:
+        raise ct.Unrepresentable("replace_node raised %s: %s" % (out[0], out[1]))
     args = "$g%s %s $h%s $anchors" % (sfx, ct.z(node), sfx)
     if mg:
         model = "replace_node_multi " + args
@@ -473,6 +545,11 @@ def coq_case(c, out):
     # history: every call is compared with the model on ITS OWN inputs and the ORIGINAL anchors
     agrees, specs, models = [], [], []
     for j, (step, o) in enumerate(zip(c["steps"], out[1])):
+        if step.get("bad") is not None:
+            # outside the Gallina model (the parser is not modelled): "the call raises the class a fresh parser
+            # raises", decided in Python; o = (class raised, (class expected, message))
+            agrees.append("true" if o[0] == o[1][0] else "false")
+            continue
         d, agree, spec, model = _step_terms(c, step["graph"], step["node"], o, "_%d" % j)
         defs.update(d)
         agrees.append(agree)
@@ -488,7 +565,8 @@ def describe(c):
         return {"kind": "history", "mg": c["mg"], "pattern": c["pattern"], "anchors": list(c["anchors"]),
                 "default_anchor": bool(c.get("default_anchor")),
                 "steps": [{"graph": cm.graph_py(st["graph"]), "node": st["node"], "order": st["order"],
-                           "src": st.get("src"), "chain": bool(st.get("chain")), "pick": st.get("pick", 0)}
+                           "src": st.get("src"), "chain": bool(st.get("chain")), "pick": st.get("pick", 0),
+                           "bad": st.get("bad")}
                           for st in c["steps"]]}
     return {"kind": "replace", "mg": c["mg"], "graph": cm.graph_py(c["graph"]), "node": c["node"],
             "pattern": c["pattern"], "anchors": list(c["anchors"]), "order": c["order"], "src": c.get("src"),
@@ -501,7 +579,7 @@ def from_json(d):
     if d["kind"] == "history":
         steps = [{"graph": cm.graph_from_py(dict(st["graph"], multigraph=d["mg"])), "node": st["node"],
                   "order": st.get("order", "replay"), "src": st.get("src"), "chain": bool(st.get("chain")),
-                  "pick": st.get("pick", 0)} for st in d["steps"]]
+                  "pick": st.get("pick", 0), "bad": st.get("bad")} for st in d["steps"]]
         return {"kind": "history", "mg": d["mg"], "steps": steps, "pattern": d["pattern"],
                 "anchors": list(d["anchors"]), "default_anchor": bool(d.get("default_anchor"))}
     g = cm.graph_from_py(dict(d["graph"], multigraph=d["mg"]))
@@ -515,6 +593,8 @@ def describe_out(out):
         return {"status": "hist", "steps": [describe_out(o) for o in out[1]]}
     if out[0] in ("ok", "tie"):
         return {"status": out[0], "graph": cm.graph_py(out[1])}
+    if isinstance(out[1], tuple):      # rejected sub-pattern: (class a fresh parser raises, message)
+        return {"status": out[0], "expected": out[1][0], "msg": out[1][1]}
     return {"status": out[0], "msg": out[1]}
 
 
@@ -522,7 +602,7 @@ def key(c):
     if c["kind"] == "mtie":
         return ("mtie", tuple(repr(o) for o in c["ops"]))
     if c["kind"] == "history":
-        return ("hist", c["mg"], tuple((cm.canon(st["graph"]), st["node"]) for st in c["steps"]),
+        return ("hist", c["mg"], tuple((cm.canon(st["graph"]), st["node"], st.get("bad")) for st in c["steps"]),
                 c["pattern"], tuple(c["anchors"]))
     return (c["mg"], cm.canon(c["graph"]), c["node"], c["pattern"], tuple(c["anchors"]))
 
@@ -538,7 +618,9 @@ def nontrivial(c, out):
         return len(c["ops"]) >= 3
     if c["kind"] == "history":
         # at least two calls that actually re-attach a bond
-        return sum(1 for st in c["steps"] if _deg(c, st["graph"], st["node"]) >= 1) >= 2
+        return sum(1 for st in c["steps"] if st.get("bad") is None and _deg(c, st["graph"], st["node"]) >= 1) >= 2 \
+            or (any(st.get("bad") is not None for st in c["steps"])
+                and any(st.get("bad") is None and _deg(c, st["graph"], st["node"]) >= 1 for st in c["steps"]))
     return _deg(c) >= 1
 
 
@@ -558,13 +640,25 @@ def classes(c, out):
             yield "history_chained=yes"
         yield "history_anchors=%s" % ("1" if len(c["anchors"]) == 1 else "0" if not c["anchors"] else "2+")
         # calls after the first one in which the anchor ORDER matters (degree >= 2, >= 2 distinct anchors)
-        late = sum(1 for st in c["steps"][1:] if _deg(c, st["graph"], st["node"]) >= 2)
+        late = sum(1 for st in c["steps"][1:] if st.get("bad") is None and _deg(c, st["graph"], st["node"]) >= 2)
         if late and len(set(c["anchors"])) >= 2:
             yield "history_late_call_order_sensitive=yes"
         if c.get("default_anchor"):
             yield "default_anchor=yes"
-        for o in out[1]:
-            yield "history_result=" + o[0]
+        nbad = sum(1 for st in c["steps"] if st.get("bad") is not None)
+        if nbad:
+            yield "history_rejected_calls=%d" % nbad
+            seen_bad = False
+            for st, o in zip(c["steps"], out[1]):
+                if st.get("bad") is not None:
+                    seen_bad = True
+                    yield "history_rejected_class=" + str(o[1][0])
+                elif seen_bad and o[0] == "ok":
+                    yield "history_valid_call_after_rejected=yes"
+                    break
+        for st, o in zip(c["steps"], out[1]):
+            if st.get("bad") is None:
+                yield "history_result=" + o[0]
         return
     g = c["graph"]
     d = _deg(c)
